@@ -48,6 +48,17 @@ func c04Scenarios(tier string) []CScenario {
 		CScenario{Name: "dup-batch-then-single-vs-batch", Threads: [][]CReq{{attsN([]int{0, 0}, 0, 1), att1(0, 0, 1)}, {attsN(k10, 1, 2)}}},
 		CScenario{Name: "nokey-batch-then-single-vs-single", Threads: [][]CReq{{nokey, att1(0, 0, 1)}, {att1(0, 1, 2)}}},
 	)
+	// Callers that give up (their context is cancelled before the request arrives, or at any moment the scheduler chooses
+	// while it waits or runs): such a request may be refused, but then it leaves no trace, and whatever it does happens
+	// inside its own turn.
+	sc = append(sc,
+		CScenario{Name: "given-up-before-att-vs-att", Threads: [][]CReq{{withCtx(att1(0, 0, 1), "pre")}, {att1(0, 1, 2)}}},
+		CScenario{Name: "given-up-before-batch-then-single-vs-batch", Threads: [][]CReq{{withCtx(attsN(k01, 0, 1), "pre"), att1(0, 1, 2)}, {attsN(k10, 2, 3)}}},
+		CScenario{Name: "given-up-during-att-vs-att", Threads: [][]CReq{{withCtx(att1(0, 0, 1), "ext")}, {cancelOf(0, 0)}, {att1(0, 0, 2)}}},
+		CScenario{Name: "given-up-during-att-vs-two-atts", Threads: [][]CReq{{withCtx(att1(0, 0, 1), "ext")}, {cancelOf(0, 0)}, {att1(0, 0, 2), att1(0, 1, 2)}}},
+		CScenario{Name: "given-up-during-prop-vs-prop", Threads: [][]CReq{{withCtx(prop1(0, 5), "ext")}, {cancelOf(0, 0)}, {prop1(0, 6)}}},
+		CScenario{Name: "given-up-during-batch-vs-single", Threads: [][]CReq{{withCtx(attsN(k01, 0, 1), "ext")}, {cancelOf(0, 0)}, {att1(1, 0, 2)}}},
+	)
 	// Batches with three keys in every cyclic order, under both bytewise key orders (an implementation may order lock
 	// acquisition by key bytes).
 	for _, desc := range []bool{false, true} {
@@ -117,6 +128,7 @@ func replayConc(raw json.RawMessage) int {
 		Scenario CScenario `json:"scenario"`
 		Mode     string    `json:"mode"`
 		Choices  []int     `json:"choices"`
+		PerG     bool      `json:"goroutine_mode"`
 	}
 	if err := json.Unmarshal(raw, &rp); err != nil {
 		fmt.Println(err)
@@ -130,7 +142,7 @@ func replayConc(raw json.RawMessage) int {
 	}
 	defer env.close()
 	sc := env.mkScenario(rp.Scenario, rp.Mode == "lock-only", rp.Check == "C04")
-	xs, fs, err := sched.Replay(sc, rp.Choices, 2)
+	xs, fs, err := sched.Replay(sc, rp.Choices, 2, rp.PerG)
 	if err != nil {
 		fmt.Println(err)
 		return 2
